@@ -4,7 +4,9 @@ import MgModel.C10.Sort
 
 * sorts: the output is `Sorted` (keys non-decreasing) and a permutation of the input;
 * heap: the contents are a multiset of entries; `root`/`extract` return an entry whose
-  key is a minimum of the multiset; the live nodes satisfy the heap order.
+  key is a minimum of the multiset (stated as `SpecStep` in `MgProof/C10/HeapHistory.lean`);
+  histories (`hrun`) and draining (`drain`) are defined here so that the theorems and the
+  driver talk about the same functions.
 -/
 namespace MgModel.C10
 
@@ -18,23 +20,6 @@ def isSorted : List Elem → Bool
     non-decreasing order (the order of equal-key pointers is not specified) -/
 def sortedKeys (a : Array Elem) : List Int :=
   (a.toList.map (·.1)).mergeSort (fun x y => decide (x ≤ y))
-
-/-- minimum key of a multiset of entries -/
-def minKey? : List Elem → Option Int
-  | [] => none
-  | x :: l => match minKey? l with
-    | none => some x.1
-    | some k => some (if x.1 ≤ k then x.1 else k)
-
-/-- heap order on the live nodes `a[1..]` (executable): `a[i/2].key ≤ a[i].key` for `2 ≤ i` -/
-def heapOrdered (a : Array Elem) : Bool :=
-  (List.range a.size).all fun i =>
-    if 2 ≤ i then
-      match a[i / 2]?, a[i]? with
-      | some p, some c => decide (p.1 ≤ c.1)
-      | _, _ => false
-    else true
-
 
 /-! ## heap histories -/
 
